@@ -428,7 +428,16 @@ def E(n, cx):
             if op == ">>":
                 return "(Z.shiftr %s %s)" % (ea, eb)
             r = "(Z.shiftl %s %s)" % (ea, eb)
-            return r if signed else wrapz(w, r)
+            if signed:
+                # AUDIT2: a left shift of a (promoted) int whose result can reach the sign bit is not the mathematical
+                # product: gcc / clang give the two's-complement value, which a later widening conversion sign-extends
+                # (`(source[4] << 24)` added into a uint64_t).  Rendered as such unless a syntactic bound excludes it.
+                from .inventory import max_value
+                ma = max_value(a)
+                if not (v is not None and 0 <= v < w and ma is not None and (ma << v) < (1 << (w - 1))):
+                    r = "(swrapz %d %s)" % (w, r)
+                return r
+            return wrapz(w, r)
         if op in ("/", "%"):
             v = lit(b)
             if v is None or v == 0:
@@ -467,11 +476,20 @@ def E(n, cx):
                 return dv
             off = ptr_off(p, cx)
             if off is not None:
-                return "(v_%s %d)" % off
+                # AUDIT2: `*(uint16_t*)(source + k)` reads 2 bytes in host (little-endian) order, not the byte at k
+                we, se = width(ctype(n))
+                if we == 8:
+                    return "(v_%s %d)" % off
+                if not se and we in (16, 32, 64):
+                    return "(" + " + ".join("((v_%s %d) * %d)" % (off[0], off[1] + i, 256 ** i) for i in range(we // 8)) + ")"
+                raise Unsupported("read of a %d-bit object through a cast byte pointer" % we)
         raise Unsupported("unary " + op)
     if k == "ArraySubscriptExpr":
         base, idx = n["inner"]
         b = cast.strip(base)
+        if b.get("kind") == "DeclRefExpr" and (b["referencedDecl"]["name"] in cx.sources or b["referencedDecl"]["name"] in cx.bytes) \
+                and width(ctype(n))[0] != 8:
+            raise Unsupported("subscript of a byte pointer cast to a wider element type")      # AUDIT2
         if b.get("kind") == "DeclRefExpr" and b["referencedDecl"]["name"] in cx.sources:
             i = const_eval(idx)
             if i is not None and i >= 0:
@@ -634,6 +652,8 @@ def ptr_off(p, cx):
         return (p["referencedDecl"]["name"], 0)
     if p.get("kind") == "BinaryOperator" and p.get("opcode") == "+":
         a, b = p["inner"]
+        if ctype(p).replace(" ", "") != "unsignedchar*":
+            raise Unsupported("pointer arithmetic on a cast byte pointer (scaled by the pointee size)")      # AUDIT2
         pa = ptr_off(a, cx)
         v = const_eval(b)
         if pa and v is not None and v >= 0:
@@ -1153,6 +1173,10 @@ def S(stmts, cx, ret):
                 raise Unsupported("declaration")
             if d.get("storageClass"):
                 raise Unsupported("local with a storage class")
+            if d["name"] in cx.bound or d["name"] in cx.unions:
+                # AUDIT2: statements are flattened, so an inner declaration would stay visible after its block
+                # (a shadowing `size_t sum` in a nested block silently replaced the outer one)
+                raise Unsupported("second declaration of %s (shadowing or sibling scope)" % d["name"])
             init = [x for x in d.get("inner", []) if x.get("kind") not in ("FullComment",)]
             t = ctype(d)
             if t.startswith("union "):
